@@ -205,6 +205,15 @@ def run(ctx):
     if n10 < 1:
         raise AnalysisBroken("no guarded buffer growth found in orcparse.c (orc_parse_splat_error)")
 
+    # ---- D11: values obtained through out-parameters are defined when they are read ----------------
+    # (the parser hands every number to helpers that report the end of the conversion through `char **end`)
+    import outparam
+    libf = [g for g in db.all_functions() if g.relfile.startswith("orc/")]
+    n11 = outparam.check(db, libf, rep, "D11-OUTPARAM-DEFINED", where)
+    rep.extra["outparam_sites_judged"] = n11
+    if n11 < 3:
+        raise AnalysisBroken("only %d out-parameter sites (uninitialised local passed by address to an in-tree function and read afterwards) found" % n11)
+
     # ---- D9: the text cursor never steps over the terminating NUL -------------------------------
     # OrcParser.p walks the caller's NUL-terminated text.  Advancing it by a constant k is safe only if the k bytes it
     # steps over are known to be non-NUL at that point (finite evaluation of the guards over a byte alphabet).
